@@ -182,6 +182,14 @@ def mutants_for(pid):
                 meta = json.loads(mp.read_text())
                 if meta.get("property") == pid and meta.get("detection", {}).get("verdict") == "caught":
                     out.append(dict(name=f"seeded/{d.name}", kind="fire", patch=str(d / "patch.diff"), expect=pid))
+    bd = VERIF / "seeded_benign"
+    if bd.is_dir():
+        for d in sorted(bd.iterdir()):
+            mp = d / "meta.json"
+            if mp.exists() and (d / "patch.diff").exists():
+                meta = json.loads(mp.read_text())
+                if meta.get("property") == pid:
+                    out.append(dict(name=f"seeded_benign/{d.name}", kind="silent", patch=str(d / "patch.diff")))
     return out
 
 
